@@ -124,7 +124,16 @@ pub fn render(spec: &EnumSpec) -> String {
     o.push_str(&format!(
         r#"fn _assert_send_sync<X: Send + Sync>() {{}}
 fn _assert_bounds<X: Iterator + Clone + DoubleEndedIterator + ExactSizeIterator + core::iter::FusedIterator>() {{}}
+fn _generic_user<E: strum::IntoEnumIterator>() -> usize {{
+    let mut it = E::iter();
+    let _ = it.next_back();
+    let _ = it.nth_back(0);
+    let n = it.len();
+    let c = it.clone();
+    n + c.rev().count()
+}}
 fn _compile_time() {{
+    let _ = _generic_user::<EC>;
     _assert_send_sync::<<{rc} as strum::IntoEnumIterator>::Iterator>();
     _assert_bounds::<<{rc} as strum::IntoEnumIterator>::Iterator>();
 }}
